@@ -23,6 +23,11 @@ def monitor(case, line):
             return ("%s handle %s stayed active for the whole %s phase (active at its first callback, not started, "
                     "stopped or closed during it) but was not called" % (("idle", "prepare", "check")[int(kk) - 1], hh,
                                                                           ("idle", "prepare", "check")[int(kk) - 1]))
+        if tok.startswith("!samepass"):
+            return ("timer %s, (re)started from inside a timer callback, fired again before the next poll: a timer that "
+                    "becomes due during a timer pass has to wait for the next iteration" % tok[9:])
+        if tok.startswith("!twice"):
+            return "timer %s fired twice without a poll phase (or a new uv_run) in between" % tok[6:]
         if tok == "!drainhang":
             return ("after uv_close() on every handle uv_run(UV_RUN_DEFAULT) did not return within 4000 poll phases: "
                     "the loop stays alive (or a closed handle keeps firing)")
